@@ -4,6 +4,7 @@ from __future__ import annotations
 import dataclasses
 import json
 import os
+import re
 import random
 import time
 import typing
@@ -41,9 +42,10 @@ ASSUMPTIONS = [
     "declared defaults are used on trust (they are not validated)",
     "sets are Python sets (no two equal members)",
 ]
-HDR = HEADER.replace("Corr.Check.", "Corr.Check Model.Derive Proofs.DeriveR.")
+HDR = HEADER.replace("Corr.Check.", "Corr.Check Model.Derive Proofs.DeriveR Proofs.DeriveC Proofs.DeriveD.")
 S, I = G.S, G.I
 NCLS = len(G.STD_CLASSES)
+FRAG_RE = re.compile(r"=\s*\((\d+)(?:%nat)?,\s*(\d+)(?:%nat)?,\s*(\d+)(?:%nat)?,\s*(\d+)(?:%nat)?,\s*(\d+)(?:%nat)?\)")
 
 SCALAR_PY = {"KStr": str, "KInt": int, "KFloat": float, "KBool": bool, "KBytes": bytes, "KDecimal": Decimal,
              "KUuid": UUID, "KDate": date, "KDatetime": datetime}
@@ -827,8 +829,76 @@ def literal_cases(rng: random.Random) -> List[TCase]:
     return out
 
 
+def wrapper_cases(rng: random.Random) -> List[TCase]:
+    """Maybe / Optional / containers around annotations whose validators coerce in default mode: the payload
+    holds the coerced value (Just(Decimal), not Just("1.5")) - and in signature mode the look-alike is rejected."""
+    out: List[TCase] = []
+    g = Gen(rng)
+    sc = lambda k: ("AScalar", (k,))
+    pairs = [(sc("KDecimal"), [S("1.5"), I(3), G.D1]), (sc("KDate"), [S("2020-01-02"), G.DATE1]),
+             (sc("KUuid"), [S("12345678-1234-5678-1234-567812345678"), G.UUID1]),
+             (sc("KDatetime"), [S("2020-01-02T03:04:05"), G.DT1]),
+             (("ATupleN", [sc("KInt"), sc("KInt")]), [("VList", [I(1), I(2)]), ("VTuple", [I(1), I(2)])]),
+             (("ATupleU", sc("KDecimal")), [("VList", [S("1.5")]), ("VTuple", [G.D1])])]
+    for inner, xs in pairs:
+        for x in xs:
+            for a, wrap in ((("AMaybe", inner), lambda v: ("VJust", v)), (("AUnion", [inner, ("ANone",)]), lambda v: v),
+                            (("AList", ("AMaybe", inner)), lambda v: ("VList", [("VJust", v)])),
+                            (("ADict", sc("KStr"), ("AMaybe", inner)), lambda v: ("VDict", [P(S("k"), ("VJust", v))]))):
+                for sig in (False, True):
+                    out.append(TCase(g.classes, a, wrap(x), sig, "wrapper"))
+    # dict / list / tuple annotations inside Optional / Union whose contents get coerced: the payload is the
+    # variant's payload, not the raw argument
+    for inner, xs in pairs[:4]:
+        for x in xs:
+            for a, wx in ((("AUnion", [("ADict", sc("KStr"), inner), ("ANone",)]), ("VDict", [P(S("k"), x)])),
+                          (("AUnion", [("ANone",), ("ADict", inner, sc("KInt"))]), ("VDict", [P(x, I(1))])),
+                          (("AUnion", [("AList", inner), sc("KStr")]), ("VList", [x])),
+                          (("AUnion", [sc("KInt"), ("ATupleU", inner)]), ("VList", [x])),
+                          (("AList", ("AUnion", [("ADict", sc("KStr"), ("AList", inner)), ("ANone",)])), ("VList", [("VDict", [P(S("k"), ("VList", [x]))])]))):
+                for sig in (False, True):
+                    out.append(TCase(g.classes, a, wx, sig, "wrapper"))
+    return out
+
+
+def record_cases(rng: random.Random) -> List[TCase]:
+    """Record classes whose requiredness / layout is not the plain one: TypedDicts of either totality with
+    Required / NotRequired keys, dataclasses that inherit their first fields from a slots dataclass
+    (such instances keep only their own fields in __dict__) - with complete, incomplete and over-complete values."""
+    out: List[TCase] = []
+    sc = lambda k: ("AScalar", (k,))
+    base = list(G.STD_CLASSES)
+    for total in (True, False):
+        for reqs in ((True, True), (True, False), (False, True), (False, False)):
+            names = ["p", "q"]
+            fields = [(n, sc("KInt") if i == 0 else sc("KStr"), None, r) for i, (n, r) in enumerate(zip(names, reqs))]
+            classes = base + [{"kind": "typed", "fields": fields, "total": total, "hashable": False}]
+            cid = len(base)
+            a = ("ARecord", ("RkTyped",), N(cid), [P(S(n), P(t, r)) for (n, t, _d, r) in fields])
+            full = [P(S("p"), I(1)), P(S("q"), S("a"))]
+            for kv in (full, full[:1], full[1:], [], full + [P(S("z"), I(0))], [P(S("p"), S("no")), P(S("q"), S("a"))]):
+                for wrap_a, wrap_x in ((lambda t: t, lambda v: v), (lambda t: ("AList", t), lambda v: ("VList", [v])),
+                                       (lambda t: ("AUnion", [t, ("ANone",)]), lambda v: v)):
+                    for sig in (False, True):
+                        out.append(TCase(classes, wrap_a(a), wrap_x(("VDict", kv)), sig, "records"))
+    # plain dataclass C(a, b=5) whose field a lives in a slots base class
+    for k_own in (0, 1):
+        fields = [("a", sc("KInt"), None, True), ("b", sc("KInt"), I(5), False)]
+        classes = base + [{"kind": "data_slots", "fields": fields[:2 - k_own] if k_own else fields, "hashable": False},
+                          {"kind": "data", "base_cls": len(base), "own": k_own, "fields": fields, "hashable": False}]
+        cid = len(base) + 1
+        a = ("ARecord", ("RkData",), N(cid), [P(S(n), P(t, r)) for (n, t, _d, r) in fields])
+        inst = ("VObj", N(cid), [P(S("a"), I(1)), P(S("b"), I(7))])
+        bad = ("VObj", N(cid), [P(S("a"), S("x")), P(S("b"), I(7))])
+        for x in (inst, bad, ("VDict", [P(S("a"), I(1))]), ("VObj", N(len(base)), [P(S("a"), I(1)), P(S("b"), I(7))][:2 - k_own] if k_own else [P(S("a"), I(1)), P(S("b"), I(7))])):
+            for wrap_a, wrap_x in ((lambda t: t, lambda v: v), (lambda t: ("AList", t), lambda v: ("VList", [v]))):
+                for sig in (False, True):
+                    out.append(TCase(classes, wrap_a(a), wrap_x(x), sig, "records"))
+    return out
+
+
 def gen_cases(rng: random.Random, n: int) -> List[TCase]:
-    out: List[TCase] = literal_cases(rng)
+    out: List[TCase] = literal_cases(rng) + wrapper_cases(rng) + record_cases(rng)
     while len(out) < n:
         g = Gen(rng)
         a = g.ann(rng.choice([0, 1, 1, 2, 2, 3]))
@@ -894,6 +964,7 @@ def run(tier: str, rng: random.Random, proof_ok: bool) -> dict:
         chunk = good[k:k + per]
         orc = Oracles()
         body = []
+        flags: List[str] = []
         for i, c in enumerate(chunk):
             acc: list = []
             subvalues(c.x_seen, acc)
@@ -914,8 +985,17 @@ def run(tier: str, rng: random.Random, proof_ok: bool) -> dict:
             body.append(f"  chk {4 * i + 2}%nat {env} Sync 80%nat {coq(c.b.vterm)} {coq(c.x_seen)} {coq(c.obs)}.\n")
             # the soundness theorem's premise holds of every generated annotation without user validators
             body.append(f"  chk_eq {4 * i + 3}%nat (okann {env} {coq(c.a)}) {coq(not uses_annotated(c.a))}.\n")
+            # is the case inside the fragment of the completeness theorem of its resolution mode (and of its identity clause)?
+            frag = f"cplain {env} {coq(c.a)}" if c.sig else f"dplain {env} {coq(c.a)}"
+            ident = "true" if c.sig else f"dident {coq(c.a)}"
+            flags.append(f"({sig}, ({frag} && hproper {env} {coq(c.x_seen)}, {ident}))")
+        count = ("Definition frag_flags : list (bool * (bool * bool)) := [" + ";\n  ".join(flags) + "].\n"
+                 "Definition cnt (p : bool * (bool * bool) -> bool) : nat := length (filter p frag_flags).\n"
+                 "Eval vm_compute in (cnt (fun p => fst p), cnt (fun p => fst p && fst (snd p)), "
+                 "cnt (fun p => negb (fst p)), cnt (fun p => negb (fst p) && fst (snd p)), "
+                 "cnt (fun p => negb (fst p) && fst (snd p) && snd (snd p))).\n")
         path = os.path.join(GEN, f"cases_C07_p{os.getpid()}_{k // per}.v")
-        open(path, "w").write("".join([HDR, orc.coq(), "Goal True.\n"] + body + ["exact I. Qed.\n"]))
+        open(path, "w").write("".join([HDR, orc.coq(), "Goal True.\n"] + body + ["exact I. Qed.\n", count]))
         files.append((path, chunk))
     with ThreadPoolExecutor(max_workers=16) as ex:
         results = list(ex.map(lambda fc: run_coq_file(fc[0]), files))
@@ -923,7 +1003,11 @@ def run(tier: str, rng: random.Random, proof_ok: bool) -> dict:
     what = {0: "the derived validator differs from the model's derivation", 1: "the model's type reading (has_type) differs from the type oracle",
             2: "the derived validator's outcome differs from the model's run",
             3: "the premise of the soundness theorem (okann: record nodes well-formed, no user validator) does not hold of a generated annotation"}
+    frag_counts = [0, 0, 0, 0, 0]
     for (path, chunk), (status, mm, raw) in zip(files, results):
+        fm = FRAG_RE.search(raw)
+        if fm:
+            frag_counts = [a + int(b) for a, b in zip(frag_counts, fm.groups())]
         if status != "ok":
             violations.append({"kind": "correspondence", "signature": None,
                                "what": f"correspondence file {os.path.basename(path)} failed to evaluate", "log": raw[-1500:]})
@@ -963,6 +1047,10 @@ def run(tier: str, rng: random.Random, proof_ok: bool) -> dict:
            "traces_validated_against_impl": 4 * len(good), "mismatches": mism, "harness_errors": herr, "harness_error_first": herr_first[:200],
            "verdicts": dist, "root_annotation_kinds": kinds, "signature_mode": sum(1 for c in good if c.sig),
            "streams": {t: sum(1 for c in good if c.tag == t) for t in ("conform", "corrupt", "arbitrary", "lookalike")},
+           "inside_theorem_fragments": {"signature_mode_cases": frag_counts[0], "of_them_in_C07_complete_signature_mode_partial": frag_counts[1],
+                                        "default_mode_cases": frag_counts[2], "of_them_in_C07_complete_default_partial": frag_counts[3],
+                                        "of_them_with_payload_identity_clause": frag_counts[4],
+                                        "note": "premises (cplain / dplain, hproper, dident) evaluated by the model on each generated (annotation, value)"},
            "corr_wall_s": round(time.time() - t0, 1)}
     return {"violations": violations, "coverage": cov}
 
